@@ -1,6 +1,8 @@
 package rules
 
 import (
+	"strings"
+
 	ssa "xvc/xssa"
 
 	"xvc/load"
@@ -77,6 +79,24 @@ func c17(c *q.Ctx) {
 		c.Before(f, q.ToCall("Meta.UpdateNextIrreversibleBlockHeight"), q.ToCall("State.updateLatestBlockid"), "the height is staged before the block's batch is written")
 		c.SameValueArgs(f, map[string]int{"Meta.UpdateNextIrreversibleBlockHeight": 4, "State.updateLatestBlockid": 2}, "the height travels in the batch that moves the pointer", "")
 		c.Gate(f, "Meta.UpdateNextIrreversibleBlockHeight", q.ToCall("State.updateLatestBlockid"), q.Opt{K1Only: true})
+		// UpdateIrreversibleBlockHeight advances the in-memory staging copy (MetaTmp) at once, not when the batch is
+		// written: the height is staged as the LAST step before the write, so that no verification or execution step
+		// that can refuse the block lies between the two (a refused block must not contribute height - w)
+		c.Then(f, q.ToCall("Meta.UpdateNextIrreversibleBlockHeight"), q.ToCall("State.updateLatestBlockid"), q.ToCall("State.doTxInternal|State.payFee|State.verifyBlockTxs|State.processUnconfirmTxs"), nil, "nothing that can refuse the block runs between staging the height and writing the batch")
+	}
+	// every applied or undone block publishes the staged meta (Meta = clone of MetaTmp) before the next block is
+	// taken up or the operation reports success: the undo guard of the next step and GetMeta() read the published copy
+	publish := q.Target{Name: "the staged meta is published (store Meta.Meta)", Instr: func(i ssa.Instruction) bool { return publishesMeta(i, 0) }}
+	moved := q.ToCall("State.updateLatestBlockid")
+	for _, name := range []string{"PlayAndRepost", "PlayForMiner", "procUndoBlkForWalk", "procTodoBlkForWalk"} {
+		f := c.Fn(st + "(*State)." + name)
+		if f == nil {
+			continue
+		}
+		c.Then(f, moved, publish, q.ToSuccess(), nil, "no success exit with an unpublished meta")
+		if strings.HasPrefix(name, "proc") {
+			c.Then(f, moved, publish, moved, nil, "the next block of the walk sees the height its predecessor staged")
+		}
 	}
 	ub := c.Fn(st + "(*State).procUndoBlkForWalk")
 	if ub != nil {
@@ -117,4 +137,29 @@ func sameKey(c *q.Ctx, writer, loader *ssa.Function) {
 	ok := len(l) > 2 && w == "\"M"+l[1:]
 	c.Check(ok, "K7", load.QualName(writer), "the key staged is the key "+load.FuncName(loader)+" reads (meta table)", c.At(ws[0]), "writes "+w+", reads "+l)
 	c.Sites += 2
+}
+
+// publishesMeta: the instruction stores Meta.Meta, or calls a module function that does (helpers, two levels).
+func publishesMeta(i ssa.Instruction, depth int) bool {
+	if s, ok := i.(*ssa.Store); ok {
+		if fa, ok := s.Addr.(*ssa.FieldAddr); ok && q.TypeField(fa) == "Meta.Meta" {
+			return true
+		}
+	}
+	ci, ok := i.(ssa.CallInstruction)
+	if !ok || depth >= 2 {
+		return false
+	}
+	callee := ci.Common().StaticCallee()
+	if callee == nil {
+		return false
+	}
+	for _, b := range callee.Blocks {
+		for _, x := range b.Instrs {
+			if publishesMeta(x, depth+1) {
+				return true
+			}
+		}
+	}
+	return false
 }
